@@ -507,6 +507,8 @@ pub struct Tuples {
 	d: String,
 	e: Vec<(String, bool)>,
 	f: Pair,
+	/// an array that sits behind a union branch (the tuple hint reaches it through the union)
+	h: (i32, i32),
 	g: i64,
 }
 #[derive(Serialize, Deserialize, Debug, Clone)]
@@ -523,6 +525,7 @@ impl Fam for Tuples {
 				("d", S::String),
 				("e", S::array(S::array(S::Union(vec![S::String, S::Boolean])))),
 				("f", S::array(S::Int)),
+				("h", S::Union(vec![S::array(S::Int), S::String])),
 				("g", S::Long),
 			],
 		)
@@ -531,7 +534,7 @@ impl Fam for Tuples {
 		let mut out = Vec::new();
 		for &x in &I32S {
 			for e in [vec![], vec![("k".to_owned(), true)], vec![("".to_owned(), false), ("é".to_owned(), true)]] {
-				out.push(Tuples { a: (x, -1), b: 7, c: [x as i64, i64::MIN, 0], d: "after".into(), e, f: Pair(x, 64), g: -65 });
+				out.push(Tuples { a: (x, -1), b: 7, c: [x as i64, i64::MIN, 0], d: "after".into(), e, f: Pair(x, 64), h: (x, 1), g: -65 });
 			}
 		}
 		out
@@ -545,6 +548,7 @@ impl Fam for Tuples {
 			rstr(&self.d),
 			R::Array(self.e.iter().map(|(s, b)| R::Array(vec![R::Union(0, Box::new(rstr(s))), R::Union(1, Box::new(R::Bool(*b)))])).collect()),
 			ints(&[self.f.0, self.f.1]),
+			R::Union(0, Box::new(ints(&[self.h.0, self.h.1]))),
 			R::Long(self.g),
 		])
 	}
